@@ -22,6 +22,9 @@ def gen(rng):
     elif kind == "grid": cfg["max_trials"] = rng.choice([None, None, 3, 20]); cfg["space"] = rng.choice(["small", "tiny", "cond", "late"])
     elif kind == "bayes": cfg["max_trials"] = rng.choice([2, 3, 5])
     else: cfg.update(max_trials=None, max_epochs=rng.choice([2, 3, 4, 9]), factor=rng.choice([2, 3]), iterations=rng.choice([1, 1, 2]))
+    if cfg["space"] != "late" and rng.random() < (0.35 if kind != "grid" else 0.6):
+        if kind == "grid": cfg["W"] = rng.randint(2, 4)
+        cfg["flags"] = rng.choice([[False, True], [False, True], [False, False], [True, False]])     # tune_new_entries, allow_new_entries: a space fixed up front
     return cfg
 
 
@@ -47,6 +50,8 @@ def make(cfg, d):
         with hps.conditional_scope("m", ["v"]): hps.Boolean("f")
     common = dict(objective=kt.Objective("score", cfg["direction"]), seed=cfg["seed"], hyperparameters=hps if sp != "late" else None,
                   max_retries_per_trial=cfg["max_retries"], max_consecutive_failed_trials=cfg["max_consec"])
+    if cfg.get("flags"):
+        common.update(tune_new_entries=cfg["flags"][0], allow_new_entries=cfg["flags"][1])
     k = cfg["kind"]
     if k == "random": o = randomsearch.RandomSearchOracle(max_trials=cfg["max_trials"], **common)
     elif k == "grid": o = gridsearch.GridSearchOracle(max_trials=cfg["max_trials"], **common)
